@@ -57,7 +57,13 @@ let run_case fixed toks =
          y := y'; answers outs
        | _ -> ()) in
     let flag fl c = String.contains fl c in
-    let mark_bad tx fl = if flag fl 'b' && not (List.exists (fun t -> t = tx) !bad) then bad := tx :: !bad in
+    (* the harness builds a transaction at its first mention: only there does the b flag count *)
+    let seen = ref [] in
+    let mark_bad tx fl =
+      if not (List.exists (fun t -> t = tx) !seen) then begin
+        seen := tx :: !seen;
+        if flag fl 'b' then bad := tx :: !bad
+      end in
     List.iteri (fun i op ->
         let f = String.split_on_char ',' op in
         (match f with
@@ -93,6 +99,7 @@ let run_case fixed toks =
            List.iter (function MClient (_, _, res) -> toksr.(i) <- ares_s res | _ -> ()) (o1 @ o2 @ o3)
          | ["xc"; tx; seq; k; cnt; v] ->
            let k = int_of_string k in
+           mark_bad (ni tx) "-";
            let tx' = if v = "n" then of_int 999998 else ni tx in
            let k' = if v = "s" && k > 1 then k - 1 else k in
            let idsok = not (v = "i" && k > 1) in
